@@ -83,6 +83,12 @@ Fixpoint sum_values (acc : value) (l : list value) : result value :=
 
 Definition total_value (c : col_inputs) : result value := sum_values value_zero (map snd c).
 
+(* what the sum means: plain sums over N, per lovelace and per asset (no width, no map structure) *)
+Fixpoint sum_coin (l : list value) : N :=
+  match l with [] => 0 | v :: l' => coin v + sum_coin l' end.
+Fixpoint sum_qty (l : list value) (p n : bytes) : N :=
+  match l with [] => 0 | v :: l' => qty v p n + sum_qty l' p n end.
+
 (* BigNum *)
 Definition u64_mul (a b : N) : result N := if a * b <? two64 then Ok (a * b) else Err.
 
@@ -232,12 +238,12 @@ Section WithMinAda.
   Definition return_value (r : option output) : value :=
     match r with Some o => o_amount o | None => value_zero end.
 
-  (* C19, propositional: [ins] are the values of the scenario's collateral UTxOs *)
+  (* C19, propositional: [ins] are the values of the scenario's collateral UTxOs; the sums are plain (unbounded)
+     sums of lovelace and of every asset quantity *)
   Definition spec_consistent (ins : list value) (r : option output) (t : N) : Prop :=
-    exists s, sum_values value_zero ins = Ok s /\
-      coin s = coin (return_value r) + t /\                                   (* lovelace: inputs = return + total *)
-      (forall p n, qty s p n = qty (return_value r) p n).                     (* every asset, and nothing else, is returned;
-                                                                                 the total (a Coin) is pure lovelace *)
+    sum_coin ins = coin (return_value r) + t /\                              (* lovelace: inputs = return + total *)
+    (forall p n, sum_qty ins p n = qty (return_value r) p n).                (* every asset, and nothing else, is returned;
+                                                                                the total (a Coin) is pure lovelace *)
   Definition spec_min_ada (r : option output) : Prop :=
     match r with Some o => exists m, min_ada o = Ok m /\ m <= coin (o_amount o) | None => True end.
 
